@@ -357,7 +357,7 @@ theorem dirTree_wf (d : Directive) : (dirTree d).wf false false = true := by
 theorem varDefTree_wf (v : VarDef) : (varDefTree v).wf false false = true := by
   cases hd : v.default with
   | none => simp [varDefTree, hd, TNode.wf, TNode.wfList, NodeView.isDirective, NodeView.isArgument, nameTree_wf,
-      wfList_append, optTypeTrees_wf]
+      optTypeTrees_wf]
   | some dv => simp [varDefTree, hd, TNode.wf, TNode.wfList, NodeView.isDirective, NodeView.isArgument, nameTree_wf,
       wfList_append, optTypeTrees_wf, valueTree_wf false false dv]
 
@@ -398,9 +398,6 @@ theorem docTree_wf (d : Document) : (docTree d).wf false false = true := by
 
 /-! ## `ctxRecs` of a document tree, without the Name / type-reference nodes, is `tiRecords` -/
 
-/-- drop the records of Name / Named / List / NonNull nodes (S does not list them) -/
-def obs (l : List TIRec) : List TIRec := l.filter (fun r => !nameOrTypeKind r.kind)
-
 theorem obs_append (a b : List TIRec) : obs (a ++ b) = obs a ++ obs b := by simp [obs]
 theorem obs_nil : obs [] = [] := rfl
 
@@ -413,7 +410,7 @@ theorem obs_name (s : Schema) (st : TIState) (n : Name) : obs (ctxRecs s noSkip 
 
 theorem obs_optName (s : Schema) (st : TIState) : ∀ (o : Option Name), obs (ctxRecsList s noSkip (optNameTrees o) st) = []
   | none => by simp [optNameTrees, ctxRecsList, obs]
-  | some n => by simp [optNameTrees, ctxRecsList, obs_append, obs_name, obs_nil]
+  | some n => by simp [optNameTrees, ctxRecsList, obs_name]
 
 theorem obs_type (s : Schema) : ∀ (t : TypeRef) (st : TIState), obs (ctxRecs s noSkip (typeTree t) st) = []
   | .named _ lc, st => by simp [typeTree, ctxRecs, ctxRecsList, noSkip, obs, nameOrTypeKind, ctxStep]
@@ -428,7 +425,7 @@ theorem obs_type (s : Schema) : ∀ (t : TypeRef) (st : TIState), obs (ctxRecs s
 
 theorem obs_optType (s : Schema) (st : TIState) : ∀ (o : Option TypeRef), obs (ctxRecsList s noSkip (optTypeTrees o) st) = []
   | none => by simp [optTypeTrees, ctxRecsList, obs]
-  | some t => by simp [optTypeTrees, ctxRecsList, obs_append, obs_type, obs_nil]
+  | some t => by simp [optTypeTrees, ctxRecsList, obs_type]
 
 theorem obs_variable (s : Schema) (st : TIState) (lc : Loc) :
     obs (ctxRecs s noSkip (variableTree lc) st) = [⟨"Variable", lc, st⟩] := by
@@ -486,7 +483,7 @@ theorem ctxRecs_dir (s : Schema) (st : TIState) (d : Directive) : obs (ctxRecs s
 theorem ctxRecs_varDef (s : Schema) (st : TIState) (v : VarDef) :
     obs (ctxRecs s noSkip (varDefTree v) st) = varDefRecs s st v := by
   cases hd : v.default with
-  | none => simp [varDefTree, hd, obs_node, nameOrTypeKind, obs_list_cons, obs_list_append, obs_name, obs_optType,
+  | none => simp [varDefTree, hd, obs_node, nameOrTypeKind, obs_list_cons, obs_name, obs_optType,
       obs_list_nil, varDefRecs, ctxStep]
   | some dv => simp [varDefTree, hd, obs_node, nameOrTypeKind, obs_list_cons, obs_list_append, obs_name, obs_optType,
       obs_list_nil, varDefRecs, ctxStep, ctxRecs_value]
